@@ -125,7 +125,24 @@ def C12(run):
         record_validate(run, 'lextrace', 'lex', 'LexTrace.tla', 'LexTrace.cfg', n=2000, maxlen=150, parts=12, timeout=3000)
 
 
+def C01(run):
+    run.rule = ('texts enumerated by TLC from the lexer model (all texts up to the bound over character alphabets; all sequences of '
+                'token-class fragments = "token soup") plus TLC -simulate random long texts; each is parsed by the real parser in the '
+                'debug and the release profile in a supervised worker process (panic, abort and hang are observations) and an error '
+                'must render; the model itself checks Terminates / Progress / in-bounds slices; non-trivial = non-blank text')
+    run.assumptions += ['release-mode undefined behaviour without a symptom is not observable; the model checks the slice preconditions instead']
+    quick = run.tier == 'quick'
+    for c in (['core3', 'uni3', 'kw4', 'soupfull2', 'souptiny3'] if quick else ['core4', 'uni4', 'kw5', 'multi5', 'soupfull3', 'soupcore4', 'souptiny5']):
+        tlc_replay(run, 'total-' + c, 'MC_Lex.tla', 'MC_Lex_%s.cfg' % c, 'total', profiles=('debug', 'release'), timeout_ms=5000)
+    n = 300 if quick else 5000
+    tlc_replay(run, 'total-sim', 'MC_Lex.tla', 'MC_Lex_sim.cfg', 'total', profiles=('debug', 'release'),
+               simulate='num=%d' % n, workers=8, timeout_ms=5000)
+    tlc_replay(run, 'total-simsoup', 'MC_Lex.tla', 'MC_Lex_simsoup.cfg', 'total', profiles=('debug', 'release'),
+               simulate='num=%d' % n, workers=8, timeout_ms=5000)
+
+
 PROPS = {
+    'C01': (C01, 'model_checking'),
     'C03': (C03, 'model_checking'),
     'C06': (C06, 'model_checking'),
     'C07': (C07, 'model_checking'),
